@@ -30,4 +30,18 @@ def declare(spec):
     add(spec, "SIRO", types={"individuals": "list:Any"}, requires=["len(individuals) > 0"],
         ensures=[("C08:siro-member", "result in individuals")], returns="val", allocates=True, props=["C08"])
     add(spec, "flatten_list", types={"list_of_lists": "list:Any"},
-        requires=["forall_in(list_of_lists, lambda l: is_ref(l))"], ensures=[], returns="list:Any", allocates=True)
+        requires=["forall_in(list_of_lists, lambda l: is_list(l))"],
+        returns="list:Any", allocates=True, modifies=[],
+        ensures=[
+            ("every-element-comes-from-an-inner-list",
+             "forall_in(result, lambda x: exists_int(lambda p: 0 <= p and p < len(list_of_lists) and x in as_list(list_of_lists[p], 'Any'), "
+             "trigger=lambda p: list_of_lists[p]))"),
+            ("every-inner-element-is-in-the-result",
+             "forall_int(lambda p: implies(0 <= p and p < len(list_of_lists), forall_in(as_list(list_of_lists[p], 'Any'), lambda x: x in result)), "
+             "trigger=lambda p: list_of_lists[p])"),
+            ("fresh-result", "not was_alive(result)"),
+        ],
+        loop_invariants={0: [
+            "forall_in(flat, lambda x: exists_int(lambda p: 0 <= p and p < _i and x in as_list(_it[p], 'Any'), trigger=lambda p: _it[p]))",
+            "forall_int(lambda p: implies(0 <= p and p < _i, forall_in(as_list(_it[p], 'Any'), lambda x: x in flat)), trigger=lambda p: _it[p])",
+        ]})
